@@ -6,6 +6,7 @@ import (
 	"errors"
 	"io"
 	"net/http"
+	"time"
 
 	"github.com/omec-project/upf-epc/zzverif/vsim"
 )
@@ -29,6 +30,9 @@ type HTTPReq struct {
 	Body   []byte
 	Fault  BodyFault
 	Cut    int
+	// CancelAfter: the client goes away this long after the handler started (its
+	// request context is cancelled, as net/http does when the connection closes); 0 = stays
+	CancelAfter time.Duration
 	// results (simulator side)
 	Done         bool
 	Status       int
@@ -84,7 +88,7 @@ func httpRegister(srv *http.Server) *httpSrv {
 }
 
 //go:norace
-func httpTake(hs *httpSrv) (closed bool, r *HTTPReq, method, path string, body []byte, fault BodyFault, cut int) {
+func httpTake(hs *httpSrv) (closed bool, r *HTTPReq, method, path string, body []byte, fault BodyFault, cut int, cancelAfter time.Duration) {
 	vsim.Call(func() {
 		if hs.closed {
 			closed = true
@@ -99,6 +103,7 @@ func httpTake(hs *httpSrv) (closed bool, r *HTTPReq, method, path string, body [
 		method, path = vsim.CloneString(r.Method), vsim.CloneString(r.Path)
 		body = vsim.CloneBytes(r.Body)
 		fault, cut = r.Fault, r.Cut
+		cancelAfter = r.CancelAfter
 	}
 	return
 }
@@ -170,8 +175,9 @@ func HTTPListenAndServe(srv *http.Server) error {
 		var body []byte
 		var fault BodyFault
 		var cut int
+		var cancelAfter time.Duration
 		vsim.Block(func() bool {
-			closed, r, method, path, body, fault, cut = httpTake(hs)
+			closed, r, method, path, body, fault, cut, cancelAfter = httpTake(hs)
 			return closed || r != nil
 		})
 		if closed {
@@ -181,6 +187,11 @@ func HTTPListenAndServe(srv *http.Server) error {
 		if err != nil {
 			httpFinish(r, 400, 0, nil, false)
 			continue
+		}
+		if cancelAfter > 0 {
+			ctx, cancel := context.WithCancel(context.Background())
+			req = req.WithContext(ctx)
+			httpCancelLater(cancelAfter, cancel)
 		}
 		handler := srv.Handler
 		rr := r
@@ -197,6 +208,16 @@ func HTTPListenAndServe(srv *http.Server) error {
 			handler.ServeHTTP(rec, req)
 		})
 	}
+}
+
+//go:norace
+func httpCancelLater(d time.Duration, cancel context.CancelFunc) {
+	vsim.Call(func() {
+		W.Sim.After(d, func() {
+			vsim.Ephemeral(cancel)
+			W.Sim.Logf("http client gone")
+		})
+	})
 }
 
 //go:norace
